@@ -110,6 +110,7 @@ def check_scenario(sc, sess: Session, rng, tier):
         sess.evaluations += 1
         sess.count("variant_replays_compared")
         sess.count("variant:" + name)
+        sess.sample({"variant": name, "env": env, "variant_args": variant, "turns": sc["turns"][:2], "cfg": sc["cfg"], "graphs": len(sc["world"]["graphs"]), "episodes": len(sc["world"]["eps"])})
         vb = to_bundle(res["out"])
         base = rb
         if name == "now-unset":
